@@ -1,5 +1,5 @@
 """What MANIFEST.json claims, per property (edited as the framework grows)."""
-FIX_COMMITS = ["4727107", "486f7ce", "d05ddbd", "f423e4b", "7fe0d0d", "5df9647", "d27b645", "987e38c", "2cef112"]
+FIX_COMMITS = ["4727107", "486f7ce", "d05ddbd", "f423e4b", "7fe0d0d", "5df9647", "d27b645", "987e38c", "2cef112", "982202e"]
 
 ENGINE_NOTE = ("Trusted: Coq 8.16.1 kernel (vm_compute for table obligations; no axioms: every theorem is "
                "'Closed under the global context'); tools/translate.py (reflective dump of the live classes, "
@@ -47,4 +47,28 @@ CLAIMED["C02"] = dict(
          "string_replace_map/StringReplaceDict are not modelled; they are covered by the end-to-end token "
          "comparison only. Exponent-letter case of real literals is treated as keyword case.",
     technique="Rocq proof (engine K2 yield; splitquote/splitparen losslessness by induction) + regenerated tables + correspondence + independent-lexer token search")
+CLAIMED["C11"] = dict(
+    design_ref="DESIGN.md 4 (C11), 3.4",
+    text="Theorems (regenerated tables, every leaf oracle, every input): when a tree is returned without the "
+         "Main_Program0 fall-back, the items of its Comment/Directive nodes in source order are exactly the "
+         "comment items the reader delivered, in order (each once; K2 + the leaf-kind part of K4); Directive nodes "
+         "only hold directive-form, not in-line comments; a failed alternative gives back the comments it consumed "
+         "(K1). Tie: regenerated tables + exact engine correspondence with comments kept / directives processed. "
+         "Search: comment placements over generated programs (comments(tree)==K, position in the regenerated text, "
+         "ignore == no comments, process_directives only retypes).",
+    note=ENGINE_NOTE + " Partial: the reader half (comments met inside a continued statement are queued and "
+         "delivered after it) and the effect of process_directives on the rest of the tree are checked end-to-end, "
+         "not proved.",
+    technique="Rocq proof (engine K1/K2 + leaf-kind invariant by induction) + regenerated tables + correspondence + comment-placement search")
+CLAIMED["C14"] = dict(
+    design_ref="DESIGN.md 4 (C14), 3.4",
+    text="Theorems (regenerated tables, every leaf oracle, every input): every preprocessor item the reader "
+         "delivers is a leaf of the returned tree exactly once and at its position among the other items (K2), and "
+         "back-tracking can neither lose nor duplicate one (K1). Tie: regenerated tables + exact engine "
+         "correspondence on programs with directives. Search: 18 directive forms inserted at statement boundaries "
+         "of generated programs: directive nodes == inserted, tree minus directive nodes == tree(P), text equal.",
+    note=ENGINE_NOTE + " Partial: transparency of directives for the OTHER statements (strip(tree(P+D)) = tree(P)) "
+         "is not a theorem of the model (it fails for strict-order blocks: one recorded finding) and payload "
+         "preservation is statement-level; both are checked end-to-end.",
+    technique="Rocq proof (engine K1/K2 by induction) + regenerated tables + correspondence + directive-insertion search")
 NOT_CLAIMED = {}
